@@ -202,11 +202,16 @@ pub fn run(plan: &Plan, calls: &[BCall], start: &BStart) -> RunOut {
                             *probes.extra.entry("builder_starts_rejected_as_documented").or_insert(0) += 1;
                         }
                     }
-                    Ok(Ok(_sess)) => {
+                    Ok(Ok(sess)) => {
                         if !expect_ok {
                             v.push(viol("c16.builder_accepts_invalid", format!("start_p2p_session accepted an invalid configuration {calls:?}"), calls.len()));
                         } else {
                             *probes.extra.entry("builder_p2p_accepted").or_insert(0) += 1;
+                            // the session that comes back is the configuration that was asked for
+                            if let Some(what) = p2p_accessors_differ(&sess, &model) {
+                                v.push(viol("c16.session_differs_from_configuration", format!("start_p2p_session accepted {calls:?} but the session it returned reports {what}"), calls.len()));
+                            }
+                            *probes.extra.entry("builder_accessors_checked").or_insert(0) += 1;
                             // run the accepted configuration against matching peers
                             if let Some(derived) = derive_plan(plan, &model) {
                                 *probes.extra.entry("builder_accepted_and_run").or_insert(0) += 1;
@@ -267,10 +272,13 @@ pub fn run(plan: &Plan, calls: &[BCall], start: &BStart) -> RunOut {
                         *probes.extra.entry("builder_starts_rejected_as_documented").or_insert(0) += 1;
                     }
                 }
-                Ok(Ok(_)) => {
+                Ok(Ok(st)) => {
                     if !expect_ok {
                         v.push(viol("c16.builder_accepts_invalid", format!("start_synctest_session accepted an invalid configuration {calls:?}"), calls.len()));
                     } else {
+                        if (st.num_players(), st.max_prediction(), st.check_distance(), st.current_frame()) != (model.num_players, model.window, model.check_distance, 0) {
+                            v.push(viol("c16.session_differs_from_configuration", format!("start_synctest_session accepted {calls:?} but the session reports num_players {}, max_prediction {}, check_distance {}, current_frame {}", st.num_players(), st.max_prediction(), st.check_distance(), st.current_frame()), calls.len()));
+                        }
                         *probes.extra.entry("builder_accepted_and_run").or_insert(0) += 1;
                         let mut d = plan.clone();
                         d.cfg.num_players = model.num_players;
@@ -302,6 +310,49 @@ pub fn run(plan: &Plan, calls: &[BCall], start: &BStart) -> RunOut {
         nodes: Vec::new(),
         end_us: 0,
     }
+}
+
+/// What the accessors of a freshly built P2P session say, compared with what was configured.
+fn p2p_accessors_differ(s: &ggrs::P2PSession<CfgRepeat>, m: &Model) -> Option<String> {
+    let sorted = |mut v: Vec<usize>| {
+        v.sort();
+        v
+    };
+    let of = |f: &dyn Fn(&Kind) -> bool| -> Vec<usize> { m.handles.iter().filter(|(_, k)| f(k)).map(|(h, _)| *h).collect() };
+    let locals = of(&|k| *k == Kind::Local);
+    let remotes = of(&|k| matches!(k, Kind::Remote(_)));
+    let specs = of(&|k| matches!(k, Kind::Spectator(_)));
+    if s.num_players() != m.num_players {
+        return Some(format!("num_players() = {} (configured {})", s.num_players(), m.num_players));
+    }
+    if s.max_prediction() != m.window || s.in_lockstep_mode() != (m.window == 0) {
+        return Some(format!("max_prediction() = {}, in_lockstep_mode() = {} (configured window {})", s.max_prediction(), s.in_lockstep_mode(), m.window));
+    }
+    if sorted(s.local_player_handles()) != locals || sorted(s.remote_player_handles()) != remotes || sorted(s.spectator_handles()) != specs {
+        return Some(format!("local/remote/spectator handles {:?} / {:?} / {:?} (configured {locals:?} / {remotes:?} / {specs:?})", s.local_player_handles(), s.remote_player_handles(), s.spectator_handles()));
+    }
+    if s.num_spectators() != specs.len() {
+        return Some(format!("num_spectators() = {} (configured {})", s.num_spectators(), specs.len()));
+    }
+    for a in 0..8u16 {
+        let want: Vec<usize> = m.handles.iter().filter(|(_, k)| matches!(k, Kind::Remote(x) | Kind::Spectator(x) if *x == a)).map(|(h, _)| *h).collect();
+        if sorted(s.handles_by_address(a)) != want {
+            return Some(format!("handles_by_address({a}) = {:?} (configured {want:?})", s.handles_by_address(a)));
+        }
+    }
+    let want = if m.desync == 0 { DesyncDetection::Off } else { DesyncDetection::On { interval: m.desync - 1 } };
+    if s.desync_detection() != want {
+        return Some(format!("desync_detection() = {:?} (configured {want:?})", s.desync_detection()));
+    }
+    if s.current_frame() != 0 || s.frames_ahead() != 0 {
+        return Some(format!("current_frame() = {}, frames_ahead() = {} before the first call", s.current_frame(), s.frames_ahead()));
+    }
+    let has_remote = !remotes.is_empty() || !specs.is_empty();
+    let st = s.current_state();
+    if (st == ggrs::SessionState::Synchronizing) != has_remote {
+        return Some(format!("current_state() = {st:?} with {} remote endpoints", remotes.len() + specs.len()));
+    }
+    None
 }
 
 /// Turns an accepted P2P configuration into a runnable plan: node 0 is the session under test,
